@@ -14,6 +14,8 @@ pub(crate) fn parse_ref<R: Read>(scanner: &mut Scanner<R>) -> Result<Ref, Error>
     let mut ref_chars = Vec::new();
 
     while !scanner.is_eof && (scanner.is_alpha_num() || scanner.is_any_of("~:-._")) {
+        #[cfg(feature = "verif-hooks")]
+        crate::haystack::verif_hooks::tick(crate::haystack::verif_hooks::SITE_LOOP);
         ref_chars.push(scanner.cur);
 
         scanner.advance()?
